@@ -2,7 +2,7 @@
 
 use super::Mesh;
 use crate::{Point3, Result};
-use std::collections::{HashMap, HashSet};
+use std::collections::HashMap;
 
 pub struct MeshEdges<'a> {
     /// The original mesh associated with the edge structure
@@ -135,30 +135,59 @@ pub fn unique_edges(all_edges: &[[u32; 2]]) -> Vec<([u32; 2], usize)> {
     unique_count
 }
 
-fn boundary_loops(boundary_map: HashMap<u32, u32>) -> Vec<Vec<u32>> {
-    let mut all_loops = Vec::new();
-    let mut working = Vec::new();
-    let mut queue: HashSet<u32> = boundary_map.keys().copied().collect();
-
-    while !queue.is_empty() {
-        if let Some(last_id) = working.last() {
-            let next_id = boundary_map[last_id];
-            queue.remove(&next_id);
-
-            if *working.first().unwrap() == next_id {
-                working.reverse();
-                all_loops.push(working);
-                working = Vec::new();
-            } else {
-                working.push(next_id);
-            }
-        } else {
-            let start_id = *queue.iter().next().unwrap();
-            working.push(start_id);
-        }
+/// Assemble the directed boundary edges into closed loops of vertex indices. Every boundary edge
+/// is consumed exactly once, so the walk always terminates. A vertex may have more than one
+/// outgoing boundary edge (faces which only touch at a vertex), or none (faces with inconsistent
+/// winding), so the walk prefers an unused edge leaving the current vertex and otherwise follows an
+/// unused edge arriving at it.
+fn boundary_loops(boundary_edges: &[[u32; 2]]) -> Result<Vec<Vec<u32>>> {
+    let mut outgoing: HashMap<u32, Vec<usize>> = HashMap::new();
+    let mut incoming: HashMap<u32, Vec<usize>> = HashMap::new();
+    for (i, edge) in boundary_edges.iter().enumerate() {
+        outgoing.entry(edge[0]).or_default().push(i);
+        incoming.entry(edge[1]).or_default().push(i);
     }
 
-    all_loops
+    let mut used = vec![false; boundary_edges.len()];
+    let mut all_loops = Vec::new();
+
+    for start_edge in 0..boundary_edges.len() {
+        if used[start_edge] {
+            continue;
+        }
+        used[start_edge] = true;
+
+        let start_id = boundary_edges[start_edge][0];
+        let mut working = vec![start_id];
+        let mut current = boundary_edges[start_edge][1];
+
+        while current != start_id {
+            working.push(current);
+
+            let forward = outgoing
+                .get(&current)
+                .and_then(|c| c.iter().find(|&&i| !used[i]))
+                .map(|&i| (i, boundary_edges[i][1]));
+            let next = forward.or_else(|| {
+                incoming
+                    .get(&current)
+                    .and_then(|c| c.iter().find(|&&i| !used[i]))
+                    .map(|&i| (i, boundary_edges[i][0]))
+            });
+
+            if let Some((i, next_id)) = next {
+                used[i] = true;
+                current = next_id;
+            } else {
+                return Err("A boundary chain could not be closed into a loop".into());
+            }
+        }
+
+        working.reverse();
+        all_loops.push(working);
+    }
+
+    Ok(all_loops)
 }
 
 fn identify_edges(faces: &[[u32; 3]]) -> Result<(Vec<[u32; 2]>, Vec<[u32; 3]>, Vec<Vec<u32>>)> {
@@ -185,7 +214,7 @@ fn identify_edges(faces: &[[u32; 3]]) -> Result<(Vec<[u32; 2]>, Vec<[u32; 3]>, V
         .collect();
 
     // Let's remap the face edges to the unique edges and build the boundary map at the same time
-    let mut boundary_map = HashMap::new();
+    let mut boundary_edges = Vec::new();
     let mut face_edges = Vec::new();
     for face_chunk in direct_edges.chunks(3) {
         let i0 = to_unique_index[&edge_key(&face_chunk[0])];
@@ -194,17 +223,17 @@ fn identify_edges(faces: &[[u32; 3]]) -> Result<(Vec<[u32; 2]>, Vec<[u32; 3]>, V
         face_edges.push([i0 as u32, i1 as u32, i2 as u32]);
 
         if unique_edge_count[i0].1 == 1 {
-            boundary_map.insert(face_chunk[0][0], face_chunk[0][1]);
+            boundary_edges.push(face_chunk[0]);
         }
         if unique_edge_count[i1].1 == 1 {
-            boundary_map.insert(face_chunk[1][0], face_chunk[1][1]);
+            boundary_edges.push(face_chunk[1]);
         }
         if unique_edge_count[i2].1 == 1 {
-            boundary_map.insert(face_chunk[2][0], face_chunk[2][1]);
+            boundary_edges.push(face_chunk[2]);
         }
     }
 
-    let loops = boundary_loops(boundary_map);
+    let loops = boundary_loops(&boundary_edges)?;
     let edges = unique_edge_count.iter().map(|(edge, _)| *edge).collect();
 
     Ok((edges, face_edges, loops))
